@@ -22,6 +22,7 @@ EXTENDS Integers, FiniteSets, Sequences, TLC
 CONSTANTS KDoms,      \* family of preimage sets that receive adversarial keys
           KMax,       \* adversarial keys are 0..KMax
           MaxSteps,   \* bound on the number of mutating actions
+          PurgeLast,  \* BOOLEAN: directed replay configs -- writes first, one Purge as the last step
           WithObs,    \* BOOLEAN: maintain the derived variable obs (simulation / replay configs)
           Kinds       \* subset of {"pos","fail","cut","ask"}: which stores/actions are exercised
 
@@ -112,8 +113,8 @@ Code(p) == NameIx[p.name] + 4 * (TypeIx[p.type] + 4 * (ClassIx[p.class]
 KeyOf(p) == IF p \in kdom THEN kfun[p] ELSE 100 + Code(p)
 
 Has(f, k)    == k \in DOMAIN f
-Put(f, k, v) == [x \in DOMAIN f \cup {k} |-> IF x = k THEN v ELSE f[x]]
-Del(f, k)    == [x \in DOMAIN f \ {k} |-> f[x]]
+Put(f, k, v) == TLCEval([x \in DOMAIN f \cup {k} |-> IF x = k THEN v ELSE f[x]])
+Del(f, k)    == TLCEval([x \in DOMAIN f \ {k} |-> f[x]])
 Empty        == [x \in {} |-> 0]
 
 (* what the writers build (store.go setFromResponseWithKey): the question  *)
@@ -245,11 +246,13 @@ ResetFail(f, nm, ty, cl, cd, ns) ==
   IN IF Has(f, k) /\ f[k] = FEntry(nm, ty, cl, cd, ns) THEN Del(f, k) ELSE f
 
 Tick == steps < MaxSteps /\ steps' = steps + 1 /\ phase = "m"
+(* non-purging actions; with PurgeLast the last step is reserved for Purge *)
+TickW == Tick /\ (PurgeLast => steps < MaxSteps - 1)
 Same == UNCHANGED <<kdom, kfun, ids, fids, relq>>
 
 (* Store.SetFromResponseWithKey / ...Scoped with the key the writer itself computes *)
 Store(id) ==
-  /\ "pos" \in Kinds /\ Tick
+  /\ "pos" \in Kinds /\ TickW
   /\ pos' = Put(pos, KeyOf(PreOfId(id)), Entry(id, 0))
   /\ fail' = IF NormOf[id.scope] = "sh" THEN ResetFail(fail, id.name, id.type, id.class, id.cd, "sh") ELSE fail
   /\ last' = [op |-> "store", id |-> id]
@@ -257,7 +260,7 @@ Store(id) ==
 
 (* the same writers, key of preimage b, entry of identity id *)
 StoreForged(b, id) ==
-  /\ "pos" \in Kinds /\ Tick /\ b.type # "T0" /\ PreOfId(id) # b
+  /\ "pos" \in Kinds /\ TickW /\ b.type # "T0" /\ PreOfId(id) # b
   /\ pos' = Put(pos, KeyOf(b), Entry(id, 0))
   /\ fail' = IF NormOf[id.scope] = "sh" THEN ResetFail(fail, id.name, id.type, id.class, id.cd, "sh") ELSE fail
   /\ last' = [op |-> "forge", under |-> b, id |-> id]
@@ -266,7 +269,7 @@ StoreForged(b, id) ==
 (* Store.ReplaceIfCurrent: the replacement inherits the CD partition and   *)
 (* the scope of the entry it replaces, whatever the response header says   *)
 Refresh(b, rn, rcd) ==
-  /\ "pos" \in Kinds /\ Tick /\ b.type # "T0" /\ Has(pos, KeyOf(b))
+  /\ "pos" \in Kinds /\ TickW /\ b.type # "T0" /\ Has(pos, KeyOf(b))
   /\ rn \in Names /\ FoldOf[rn] = FoldOf[pos[KeyOf(b)].name] /\ rcd \in BOOLEAN
   /\ pos' = [pos EXCEPT ![KeyOf(b)] = [@ EXCEPT !.name = rn, !.gen = 1]]
   /\ last' = [op |-> "refresh", under |-> b, rn |-> rn, rcd |-> rcd, key |-> KeyOf(b), old |-> pos[KeyOf(b)]]
@@ -277,7 +280,7 @@ Refresh(b, rn, rcd) ==
 (* (question, CD, authority scope rs); resetMatchingFailures               *)
 RespScopes(c) == {"sh"} \cup {ProbesOf[c][i] : i \in 1..Len(ProbesOf[c])}
 Ask(x, rs) ==
-  /\ "ask" \in Kinds /\ Tick /\ x \in relq /\ x.name \in Names /\ rs \in RespScopes(x.client)
+  /\ "ask" \in Kinds /\ TickW /\ x \in relq /\ x.name \in Names /\ rs \in RespScopes(x.client)
   /\ Pre(x.name, x.type, x.class, x.cd, rs) \in kdom
   /\ IF Hit(PipeMsg(x)) THEN UNCHANGED <<pos, fail>>
      ELSE /\ pos' = Put(pos, KeyOf(Pre(x.name, x.type, x.class, x.cd, rs)),
@@ -289,27 +292,27 @@ Ask(x, rs) ==
 
 (* Store.RecordFailure / FailureCache.record: a different key under the hash is replaced *)
 RecFail(id) ==
-  /\ "fail" \in Kinds /\ Tick
+  /\ "fail" \in Kinds /\ TickW
   /\ fail' = Put(fail, KeyOf(PreOfId(id)), FOfId(id))
   /\ last' = [op |-> "recfail", id |-> id]
   /\ UNCHANGED <<pos, cuts, chash>> /\ Same
 (* failure identity id filed under the hash of preimage b (overlay shim) *)
 ForgeFail(b, id) ==
-  /\ "fail" \in Kinds /\ Tick /\ b.type # "T0" /\ PreOfId(id) # b
+  /\ "fail" \in Kinds /\ TickW /\ b.type # "T0" /\ PreOfId(id) # b
   /\ fail' = Put(fail, KeyOf(b), FOfId(id))
   /\ last' = [op |-> "forgefail", under |-> b, id |-> id]
   /\ UNCHANGED <<pos, cuts, chash>> /\ Same
 
 (* Store.RecordNXDomainCut: exact map + hash index (last write wins) *)
 RecCut(c) ==
-  /\ "cut" \in Kinds /\ Tick
+  /\ "cut" \in Kinds /\ TickW
   /\ cuts' = cuts \cup {c}
   /\ chash' = Put(chash, KeyOf(CutPre(c.name, c.class)), c)
   /\ last' = [op |-> "reccut", c |-> c]
   /\ UNCHANGED <<pos, fail>> /\ Same
 (* index slot of cut preimage b pointed at cut c (overlay shim) *)
 ForgeCut(b, c) ==
-  /\ "cut" \in Kinds /\ Tick /\ b.type = "T0" /\ CutPre(c.name, c.class) # b
+  /\ "cut" \in Kinds /\ TickW /\ b.type = "T0" /\ CutPre(c.name, c.class) # b
   /\ chash' = Put(chash, KeyOf(b), c)
   /\ last' = [op |-> "forgecut", under |-> b, c |-> c]
   /\ UNCHANGED <<pos, fail, cuts>> /\ Same
@@ -324,24 +327,24 @@ SameQ(e, q) == FoldOf[e.name] = FoldOf[q.name] /\ e.type = q.type /\ e.class = q
 Covering(q) == {c \in cuts : c.class = q.class /\
                   \E i \in 1..Len(SuffixesOf[FoldOf[q.name]]) : SuffixesOf[FoldOf[q.name]][i] = c.name}
 Purge(q) ==
-  /\ Tick
+  /\ Tick /\ (PurgeLast => steps = MaxSteps - 1)
   /\ LET byKey == {KeyOf(Pre(q.name, q.type, q.class, cd, "sh")) : cd \in BOOLEAN}
          swept == {k \in DOMAIN pos : pos[k].scope # "sh" /\ SameQ(pos[k], q)}
-     IN pos' = [k \in DOMAIN pos \ (byKey \cup swept) |-> pos[k]]
-  /\ fail' = [k \in {k \in DOMAIN fail : ~(fail[k].name = FoldOf[q.name] /\ fail[k].type = q.type
-                                             /\ fail[k].class = q.class)} |-> fail[k]]
-  /\ cuts' = cuts \ Covering(q)
-  /\ chash' = [k \in {k \in DOMAIN chash :
-                        ~(chash[k] \in Covering(q) /\ k = KeyOf(CutPre(chash[k].name, chash[k].class)))}
-               |-> chash[k]]
+     IN pos' = TLCEval([k \in DOMAIN pos \ (byKey \cup swept) |-> pos[k]])
+  /\ fail' = TLCEval([k \in {k \in DOMAIN fail : ~(fail[k].name = FoldOf[q.name] /\ fail[k].type = q.type
+                                                     /\ fail[k].class = q.class)} |-> fail[k]])
+  /\ cuts' = TLCEval(cuts \ Covering(q))
+  /\ chash' = TLCEval([k \in {k \in DOMAIN chash :
+                                ~(chash[k] \in Covering(q) /\ k = KeyOf(CutPre(chash[k].name, chash[k].class)))}
+                       |-> chash[k]])
   /\ last' = [op |-> "purge", q |-> q]
   /\ Same
 
 Init ==
   /\ kdom \in KDoms
   /\ kfun \in [kdom -> 0..KMax]
-  /\ relq = RelQueries(kdom)
-  /\ ids = IdsOfDom(kdom) /\ fids = FailIdsOfDom(kdom)
+  /\ relq = TLCEval(RelQueries(kdom))          \* TLCEval: explicit (not lazily filtered) sets in the state
+  /\ ids = TLCEval(IdsOfDom(kdom)) /\ fids = TLCEval(FailIdsOfDom(kdom))
   /\ pos = Empty /\ fail = Empty /\ cuts = {} /\ chash = Empty
   /\ steps = 0 /\ phase = "m"
   /\ last = [op |-> "init"]
@@ -360,7 +363,7 @@ Mutate ==
 
 (* replay configs alternate a mutating step with a step that only recomputes obs, so  *)
 (* that simulation does not pay for obs on every candidate successor                  *)
-Observe == /\ phase = "o" /\ phase' = "m" /\ obs' = ObsNow
+Observe == /\ phase = "o" /\ phase' = "m" /\ obs' = TLCEval(ObsNow)
            /\ UNCHANGED <<kdom, kfun, ids, fids, relq, pos, fail, cuts, chash, steps, last>>
 Next == \/ Mutate /\ phase' = (IF WithObs THEN "o" ELSE "m") /\ obs' = obs
         \/ WithObs /\ Observe
